@@ -1063,9 +1063,50 @@ impl<'a> Gen<'a> {
             c.data = data;
             c
         };
+        // option flips that matter most: the switches that decide what is loaded / shown
+        let b = if a.is_phonetic() && self.rng.pct(25) {
+            let mut c = a;
+            c.opts ^= PHON_SUG;
+            if self.rng.pct(40) {
+                c.opts ^= 1 << self.rng.below(11);
+            }
+            c.data = data;
+            c
+        } else {
+            b
+        };
         let mut ops = vec![Op::Spawn { h: 0, cfg: a }];
         let mut words: Vec<String> = (0..self.rng.range(1, 5)).map(|_| self.word().chars().take(12).collect()).collect();
         words.push(self.rng.pick(&self.env.autocorrect_words).clone());
+        // user files that exist before the first context does: learned choices from an
+        // earlier session (realistic values, probed), sometimes an auto-correct list
+        let mut prelude = Prelude::default();
+        if self.rng.pct(45) && data != DataKind::None {
+            let mut probe: Option<Host> = None;
+            let pcfg = CfgSpec { layout: LayoutKind::Phonetic, data, opts: PHON_SUG };
+            let mut store = serde_json::Map::new();
+            for _ in 0..self.rng.range(1, 3) {
+                let w: String = self.rng.pick(&words).chars().filter(|c| c.is_ascii_alphabetic()).collect();
+                if w.is_empty() {
+                    continue;
+                }
+                let cands = self.probe_candidates(&mut probe, pcfg, &w);
+                if cands.len() > 1 {
+                    let c = cands[1 + self.rng.usize(cands.len() - 1)].clone();
+                    store.insert(w, serde_json::Value::String(c));
+                }
+            }
+            if !store.is_empty() {
+                prelude.store = Some(serde_json::Value::Object(store).to_string());
+            }
+        }
+        if self.rng.pct(15) {
+            let w: String = self.rng.pick(&words).chars().filter(|c| c.is_ascii_alphabetic()).collect();
+            if !w.is_empty() {
+                let v = self.autocorrect_value();
+                prelude.autocorrect = Some(serde_json::json!({ w: v }).to_string());
+            }
+        }
         let la = self.env.layout(a.layout);
         let lb = self.env.layout(b.layout);
         let type_word = |g: &mut Gen, ops: &mut Vec<Op>, l: Option<&LayoutInfo>, w: &str| match l {
@@ -1120,6 +1161,20 @@ impl<'a> Gen<'a> {
         if clock_faults && self.rng.pct(30) {
             ops.push(Op::SetFile { file: FileId::Autocorrect, st: FileSt::Absent, mt: Mt::Now });
         }
+        if self.rng.pct(25) {
+            // a chain of updates: A -> M -> B (e.g. fixed -> phonetic(off) -> phonetic(on))
+            let mut m = if self.rng.coin() { b } else { self.any_cfg(1, 1, 1) };
+            m.data = data;
+            if m.is_phonetic() && self.rng.coin() {
+                m.opts ^= PHON_SUG;
+            }
+            ops.push(Op::Update { h: 0, cfg: m });
+            if self.rng.coin() {
+                let w = self.rng.pick(&words).clone();
+                type_word(self, &mut ops, self.env.layout(m.layout), &w);
+                ops.push(Op::Finish { h: 0 });
+            }
+        }
         ops.push(Op::Update { h: 0, cfg: b });
         ops.push(Op::Fork { h: 0 });
         // continuation K in lock step
@@ -1135,7 +1190,7 @@ impl<'a> Gen<'a> {
             };
             ops.push(term);
         }
-        Plan { scenario: Scenario::Reconfigure, hash_seed: self.rng.next_u64(), prelude: Prelude::default(), ops }
+        Plan { scenario: Scenario::Reconfigure, hash_seed: self.rng.next_u64(), prelude, ops }
     }
 
     // ------------------------------------------------------------------ C12 / C13
@@ -1360,6 +1415,15 @@ impl<'a> Gen<'a> {
                         t.extend(t_post);
                         if with_reph && reph_on { u.push(fm::REPH.into()); t.push(fm::REPH.into()); }
                         if chandra { u.push("\u{0981}".into()); t.push("\u{0981}".into()); }
+                        else if self.rng.pct(14) {
+                            // an independent vowel typed as hasanta + vowel sign right after the
+                            // syllable (in both orders these two keys come last)
+                            let k = self.rng.pick(&["\u{09BE}", "\u{09BF}", "\u{09C0}", "\u{09C1}", "\u{09C7}", "\u{09CB}"]).to_string();
+                            u.push("\u{09CD}".into());
+                            u.push(k.clone());
+                            t.push("\u{09CD}".into());
+                            t.push(k);
+                        }
                     }
                     1 => {
                         let v = self.rng.pick(&vowels).to_string();
@@ -1394,6 +1458,16 @@ impl<'a> Gen<'a> {
                     ops.append(&mut uo);
                 }
                 ops.push(Op::Mark { tag: 1 });
+            }
+            if self.rng.pct(25) {
+                // the same backspaces on both sides at the end of the word: the texts are
+                // equal, so is what is left (the word ends here: what is left may end in a
+                // hasanta, after which a sign legitimately differs between the orders)
+                for _ in 0..self.rng.range(1, 3) {
+                    ops.push(Op::Bs { h: 0, ctrl: false });
+                    ops.push(Op::Bs { h: 1, ctrl: false });
+                    ops.push(Op::Mark { tag: 1 });
+                }
             }
             match self.rng.weighted(&[40, 30, 30]) {
                 0 => { ops.push(Op::Finish { h: 0 }); ops.push(Op::Finish { h: 1 }); }
